@@ -26,8 +26,10 @@ def _get_backend_kwargs():
 
     import tinygrad
 
+    tensor_type = tinygrad.Tensor  # Resolve now, such that a broken installation is reported as a failed backend rather than on every lookup
+
     def is_supported_tensor(tensor):
-        return isinstance(tensor, tinygrad.Tensor)
+        return isinstance(tensor, tensor_type)
 
     def get_shape(tensor):
         return tuple(int(x) for x in tensor.shape)
